@@ -146,6 +146,17 @@ def run(ctx):
         traces.append(t.to_json())
         strings = [unhx(c["b"]) for c in cases]
         traces += finish_traces(uni, mp, g, ps, strings[::(7 if thorough else 29)] + strings[:20], classes=("A", "S"), tag="-zoo")
+    # ... structured y coordinates on the curves (both sign bits)
+    for g, step in ([("ed1013", 1), ("ed109", 1), ("Ed25519", 8)] if thorough else [("ed1013", 1), ("Ed25519", 64)]):
+        uni.group(g)
+        cases, res = pure.gen_from_spec("GenAdversarial", dict(uni.gdesc[g], step=step))
+        sc_ = [c for c in cases if c["k"] == "structured y"]
+        ctx.cov["structured_values_from_spec"] = ctx.cov.get("structured_values_from_spec", 0) + len(sc_)
+        for i in range(0, len(sc_), 40):
+            t = Trace("structured-decode-%s-%d" % (g, i), uni)
+            for c in sc_[i:i + 40]:
+                t.raw(dict(pure.ev_dec(uni, g, unhx(c["b"])), note=c["k"]))
+            traces.append(t.to_json())
     # ... and on the shipped integer groups at word boundaries
     for ps, g in [("P1024", "I1024"), ("P2048", "I2048"), ("P3072", "I3072")][:(3 if thorough else 1)]:
         cases, res = pure.gen_from_spec("GenAdversarial", dict(uni.gdesc[g], step=64 if thorough else 256))
